@@ -551,7 +551,7 @@ fn run_auenc(seed: u64) -> Result<u64, Fail> {
     drain(&o, usize::MAX, &mut got);
     if got != want {
         let k = got.iter().zip(want.iter()).position(|(a, b)| a != b).unwrap_or(got.len().min(want.len()));
-        return Err(fail(t, "C14", "header-then-big-endian-pcm16", format!("encoder run before input: {early}; {} bytes out, {} specified; first difference at byte {k}: {:?} vs {:?}", got.len(), want.len(), got.get(k), want.get(k)), seed));
+        return Err(fail(t, "C14+C08", "header-then-big-endian-pcm16", format!("encoder run before input: {early}; {} bytes out, {} specified; first difference at byte {k}: {:?} vs {:?}", got.len(), want.len(), got.get(k), want.get(k)), seed));
     }
     Ok(works)
 }
@@ -766,7 +766,7 @@ fn run_audec(seed: u64) -> Result<u64, Fail> {
                 let same = got.len() == want.len() && got.iter().zip(want.iter()).all(|(a, b)| a.to_bits() == b.to_bits());
                 if errored || !same {
                     let k = got.iter().zip(want.iter()).position(|(a, b)| a.to_bits() != b.to_bits());
-                    return Err(fail(t, "C14", "one-sample-per-two-payload-bytes", format!("well-formed header with data offset {off}: error={errored}, {} samples decoded, {} specified, first difference at {:?}", got.len(), want.len(), k), seed));
+                    return Err(fail(t, "C14+C08", "one-sample-per-two-payload-bytes", format!("well-formed header with data offset {off}: error={errored}, {} samples decoded, {} specified, first difference at {:?}", got.len(), want.len(), k), seed));
                 }
             } else if !got.is_empty() && mutate != 0 {
                 return Err(fail(t, "C15", "malformed-header-is-an-error", format!("header mutation {mutate}, data offset {off}: {} samples were decoded", got.len()), seed));
